@@ -61,7 +61,7 @@ EXPLANATION = ("emission lemma (structured block inside an action stages exactly
 BASE = dict(p_handles=0.0, p_remote=0.0, p_ser_fail=0.0, p_missing_field=0.0, p_late_add=0.0, p_remove=0.0, p_dest_fail=0.0,
             p_globals=0.0, p_ext_fail=0.0, p_typed=0.4, p_task=0.2, p_raise=0.35, p_probe=0.15, max_depth=5, max_stmts=22)
 PROFILE_A = dict(BASE, p_extractor=0.0)
-PROFILE_B = dict(BASE, p_extractor=0.6)
+PROFILE_B = dict(BASE, p_extractor=0.6, p_ext_reserved=0.3)
 DESTS = [0, 2, 3]
 STR_RAISED = "eliot: unknown, str() raised exception"
 STRUCTURAL = ("task_uuid", "task_level", "timestamp")
